@@ -113,6 +113,9 @@ pub struct SchedState {
     directive: Vec<u8>,
     dir_pos: usize,
     strict: bool,
+    yield_alts: bool,
+    /// task that kept the processor at its last yield (a run of such yields is one deviation)
+    yield_streak: Option<usize>,
 }
 
 static mut S: Option<SchedState> = None;
@@ -143,6 +146,8 @@ pub fn init(cfg: &Cfg) {
         directive: cfg.directive.clone(),
         dir_pos: 0,
         strict: cfg.strict_deviations,
+        yield_alts: cfg.yield_alts,
+        yield_streak: None,
     };
     s.tasks[0].used = true;
     s.tasks[0].canon = 1;
@@ -384,6 +389,12 @@ fn decide(me: usize) -> Option<(usize, Decision)> {
         }
     }
     let nrun2 = alts.len();
+    // a yielding task may also keep the processor (costs a deviation)
+    let mut yield_self: Option<usize> = None;
+    if s.yield_alts && !me_enabled && nrun > 0 && s.tasks[me].used && !s.tasks[me].finished && s.tasks[me].pending == Op::Yield {
+        yield_self = Some(alts.len());
+        alts.push(Alt::Run(me));
+    }
     // environment alternatives
     let mut order: Vec<usize> = Vec::new();
     if s.tasks[me].used && !s.tasks[me].finished {
@@ -440,7 +451,7 @@ fn decide(me: usize) -> Option<(usize, Decision)> {
     let mut cost_mask = 0u32;
     for (i, a) in alts.iter().enumerate() {
         let cost = match a {
-            Alt::Run(t) => i > 0 && ((me_enabled && *t != me) || s.strict),
+            Alt::Run(t) => i > 0 && ((me_enabled && *t != me) || s.strict || (yield_self == Some(i) && s.yield_streak != Some(me))),
             Alt::Timer(_) | Alt::Eintr(_) => (nrun2 > 0 || s.strict) && i > 0,
         };
         if cost {
@@ -496,6 +507,7 @@ pub fn point(op: Op) -> Decision {
     match decide(me) {
         None => deadlock(),
         Some((next, reason)) => {
+            s.yield_streak = if op == Op::Yield && next == me { Some(me) } else { None };
             if next == me {
                 s.tasks[me].wait_others = None;
                 return reason;
